@@ -155,9 +155,12 @@ def _single_command(X, ev, prog, fmt, cmd):
 
 def _body_key(word, want: bytes, got: bytes):
     notes = set(word.notes)
-    if not word.inexact and any(b >= 0x80 for b in want) and got == want.decode("latin-1").encode("utf-8"):
-        # exactly the latin-1 -> UTF-8 re-encoding of the body, whatever escapes the command uses besides
-        return "non-utf8-charset-reencoded"
+    if not word.inexact and any(b >= 0x80 for b in want):
+        re_enc = want.decode("latin-1").encode("utf-8")
+        # exactly the latin-1 -> UTF-8 re-encoding of the body, whatever escapes the command uses besides -- also when the
+        # (separately recorded) loss of trailing newlines in $(...) applies to the same body: keyed under the re-encoding
+        if got == re_enc or ("trailing-newline-stripped" in notes and got == re_enc.rstrip(b"\n")):
+            return "non-utf8-charset-reencoded"
     if not word.inexact and "trailing-newline-stripped" in notes and want.rstrip(b"\n") == got:
         return "trailing-newline-stripped"
     if word.inexact or "percent-directive" in notes or "percent-percent" in notes:
